@@ -307,8 +307,17 @@ Section Oracle.
       unfold dep_key in *. cbn [fst snd] in *.
       rewrite bucket_of_req_wf, Hbc. cbn [andb].
       destruct (Hdeps _ _ Hin) as (ds & Hg & Hall). unfold get_dependencies in Hg. cbn [fst snd] in Hg.
-      destruct (deps_of idx (dpkg d0) v) as [dl|]; [|discriminate]. injection Hg as <-.
-      apply forallb_forall. intros d Hd. eapply Hdep; [|exact Hd]. exact Hall.
+      destruct (deps_of idx (dpkg d0) v) as [dl|]; [|discriminate].
+      set (k0 := (dpkg d0, bucket_of_req (dreq d0))) in *.
+      destruct (forallb _ (filter (fun e => key_eqb (fst e) k0) _)) eqn:Hself; [|discriminate].
+      injection Hg as <-.
+      apply forallb_forall. intros d Hd. eapply Hdep; [|exact Hd].
+      intros k rgs' Hk. destruct (key_eqb k k0) eqn:Ek.
+      + (* a dependency on the version's own bucket: met by the version itself *)
+        apply key_eqb_eq in Ek. subst k. exists v. split; [now apply alookup_nodup|].
+        rewrite forallb_forall in Hself. apply (Hself (k0, rgs')).
+        apply filter_In. split; [exact Hk|]. apply key_eqb_refl.
+      + apply Hall. apply filter_In. split; [exact Hk|]. cbn. now rewrite Ek.
   Qed.
 
   (* T0 lookup_total_and_right, repaired matcher *)
@@ -449,9 +458,17 @@ Proof.
       apply choose_version_single; [eapply deps_of_versions; eauto|exact Hbc].
     + intros k rgs Hin. eapply Hranges; eauto.
     + intros k v Hin. destruct (entry_ok_parts _ _ _ _ (Hent _ Hin)) as (_ & _ & ds & Hds & Hall).
-      exists (collect_intersections (map dep_key_range ds)). split.
-      * unfold get_dependencies. now rewrite Hds.
-      * intros k' rgs Hin'. eapply Hranges; eauto.
+      exists (filter (fun e => negb (key_eqb (fst e) k)) (collect_intersections (map dep_key_range ds))).
+      split.
+      * unfold get_dependencies. rewrite Hds.
+        assert (forallb (fun e => ranges_contain (snd e) v)
+                  (filter (fun e => key_eqb (fst e) k) (collect_intersections (map dep_key_range ds))) = true)
+          as ->; [|reflexivity].
+        apply forallb_forall. intros [k' rgs] Hf. apply filter_In in Hf as [Hf Hk]. cbn in Hk.
+        apply key_eqb_eq in Hk. subst k'. cbn.
+        destruct (Hranges ds k rgs Hall Hf (Hnonempty _ _ _ Hf)) as (w & Hl & Hc).
+        rewrite (alookup_nodup _ _ _ Hnd Hin) in Hl. now injection Hl as <-.
+      * intros k' rgs Hin'. apply filter_In in Hin' as [Hin' _]. eapply Hranges; eauto.
   - intros idx locked man Hs a. unfold brute_solver in Hs.
     destruct (exists_solution idx man) as [a'|] eqn:E; [discriminate|].
     now apply exists_solution_complete.
